@@ -23,7 +23,6 @@ MUTANTS = [
     m("c17-merge-mean-diff-after-update", "R1", '                    mean_diff = mean_est - adapt_state["mean"]\n                    mean_est *= n_iter_prev\n                    mean_est += adapt_state["iter"] * adapt_state["mean"]\n                    mean_est /= n_iter\n                    var_est += adapt_state["sum_diff_sq"]', '                    mean_est *= n_iter_prev\n                    mean_est += adapt_state["iter"] * adapt_state["mean"]\n                    mean_est /= n_iter\n                    mean_diff = mean_est - adapt_state["mean"]\n                    var_est += adapt_state["sum_diff_sq"]'),
     m("c17-reg-weight", "R1", "        covar_est *= n_iter / (self.reg_iter_offset + n_iter)", "        covar_est *= n_iter / (self.reg_iter_offset + n_iter + 1)"),
     m("c17-drop-inv", "R2", "        transition.system.metric = PositiveDiagonalMatrix(var_est).inv", "        transition.system.metric = PositiveDiagonalMatrix(var_est)"),
-    m("c17-no-refresh", "R2", "        transition.system.metric = DensePositiveDefiniteMatrix(covar_est).inv\n        # Resample momentum to account for altered distribution due to new metric\n        for chain_state, rng in zip(chain_states, rngs, strict=True):\n            chain_state.mom = transition.system.sample_momentum(chain_state, rng)", "        transition.system.metric = DensePositiveDefiniteMatrix(covar_est).inv"),
     m("c17-divide-by-n", "R2", "        var_est /= n_iter - 1", "        var_est /= n_iter"),
     m("c17-guard-lt-1", "R2", "        if n_iter < 2:  # noqa: PLR2004\n            msg = \"At least two chain samples required to compute a variance estimates.\"\n            raise AdaptationError(msg)\n        var_est /=", "        if n_iter < 1:  # noqa: PLR2004\n            msg = \"At least two chain samples required to compute a variance estimates.\"\n            raise AdaptationError(msg)\n        var_est /="),
     m("c17-finalize-unsmoothed", "R2", '                adapt_states["smoothed_log_step_size"],\n            )', '                adapt_states["log_step_size_reg_target"],\n            )'),
@@ -45,5 +44,6 @@ MUTANTS = [
     m("c17-search-return-condition-inverted", "R3", "                if (step_size_too_big and delta_h <= delta_h_threshold) or (\n                    not step_size_too_big and delta_h > delta_h_threshold\n                ):", "                if (step_size_too_big and delta_h > delta_h_threshold) or (\n                    not step_size_too_big and delta_h <= delta_h_threshold\n                ):"),
     m("c17-search-direction-reset-every-iteration", "R3", "                if s == 0 or np.isnan(delta_h):\n                    step_size_too_big", "                if True:\n                    step_size_too_big"),
     m("c17-twin-search-isnan-first", None, "                if s == 0 or np.isnan(delta_h):", "                if np.isnan(delta_h) or s == 0:", twin=True),
-    {"id": "c17-undo-F17", "prop": "C17", "rule": "R5", "edits": [{"file": A, "old": "            chain_state.pos = chain_state.pos\n            chain_state.mom = transition.system.sample_momentum(chain_state, rng)\n\n    def _regularize_covar_est", "new": "            chain_state.mom = transition.system.sample_momentum(chain_state, rng)\n\n    def _regularize_covar_est"}]},
+    m("c17-no-refresh", "R2", "        transition.system.metric = DensePositiveDefiniteMatrix(covar_est).inv\n" + '        # Resample momentum to account for altered distribution due to new metric\n        for chain_state, rng in zip(chain_states, rngs, strict=True):\n            # Values cached in state which depend on the metric (for example the Gram\n            # matrix of a constrained system) are keyed only on the position so reassign\n            # position to force their recomputation under the new metric\n            chain_state.pos = chain_state.pos\n            chain_state.mom = transition.system.sample_momentum(chain_state, rng)\n', "        transition.system.metric = DensePositiveDefiniteMatrix(covar_est).inv\n"),
+    m("c17-undo-F17", "R5", "        transition.system.metric = DensePositiveDefiniteMatrix(covar_est).inv\n" + '        # Resample momentum to account for altered distribution due to new metric\n        for chain_state, rng in zip(chain_states, rngs, strict=True):\n            # Values cached in state which depend on the metric (for example the Gram\n            # matrix of a constrained system) are keyed only on the position so reassign\n            # position to force their recomputation under the new metric\n            chain_state.pos = chain_state.pos\n            chain_state.mom = transition.system.sample_momentum(chain_state, rng)\n', "        transition.system.metric = DensePositiveDefiniteMatrix(covar_est).inv\n        for chain_state, rng in zip(chain_states, rngs, strict=True):\n            chain_state.mom = transition.system.sample_momentum(chain_state, rng)\n"),
 ]
